@@ -53,15 +53,20 @@ class C11(InterpProp):
             "action events of the simulated UMIM client; executed live once (twin A; serialisation is also attempted after every step) and then once per (cut point, fault) with fault in "
             "{restore, age 5.1 s / 60 s / 1 h, age+restore}. evaluations = executions; non-trivial = faulted executions whose cut state held >= 1 finished flow instance or a non-string variable; "
             "distinct = distinct (cut state signature, fault kind)")
-    expected_probes = ["cut_restored", "cut_aged", "cleanup_removed_flows_in_twin_b", "state_held_regex", "state_held_set", "state_held_reference", "cut_with_action_in_flight"]
+    expected_probes = ["api_turn_boundaries_restored", "api_aged_between_turns", "cut_restored", "cut_aged", "cleanup_removed_flows_in_twin_b", "state_held_regex", "state_held_set", "state_held_reference", "cut_with_action_in_flight"]
     exhaustive_parts = ["every cut point of every sampled history (restore fault); ageing faults at every cut in the thorough tier, at a seeded third of the cuts in quick"]
     quick_runs = 240
     thorough_runs = 12000
     chunk = 6
     run_timeout_s = 240.0
-    ddmin_paths = [("deliveries",), ("program", "flows"), ("program", "flows", "*", "body"), ("cuts",)]
+    ddmin_paths = [("deliveries",), ("program", "flows"), ("program", "flows", "*", "body"), ("cuts",), ("convs", "*", "turns"), ("in_rails",), ("out_rails",)]
 
     def generate(self, d, index, tier):
+        import os
+
+        fam = os.environ.get("C11_FAMILY")  # development aid: force one family
+        if fam == "api" or (fam is None and d.chance(0.2, "family-api")):
+            return gen_api_scenario(d, tier)
         sc = gen_interp_scenario(d, with_faults=d.chance(0.3, "wf"), max_deliveries=12, rich_values=True)
         sc["cuts"] = "enumerate"
         sc["age_every"] = 3 if tier == "quick" else 1
@@ -96,6 +101,8 @@ class C11(InterpProp):
     def execute(self, sc):
         from nemoguardrails.colang.v2_x.runtime.serialization import json_to_state, state_to_json
 
+        if sc.get("family") == "api":
+            return execute_api(sc)
         out = Outcome()
         tr = Trace(sc.get("run_seed"))
         ser_fail = {}
@@ -206,6 +213,112 @@ class C11(InterpProp):
 
     def same_class(self, a, b):
         return a.oracle == b.oracle and a.sig.split(":")[0] == b.sig.split(":")[0]
+
+
+# ------------------------------------------------------------------------------------------------
+# API family: the same property through LLMRails.generate_async(state=...), which serialises the
+# state after every turn.  Twin A hands the *live* State object back to generate_async (never
+# serialised, never aged), twin B the JSON the API returned (crash-restart at every turn boundary),
+# twins C_k rest longer than the clean-up age before turn k.
+# ------------------------------------------------------------------------------------------------
+V2_LLM_TURNS = ["hi", "hello there", "value please", "paraphrase please", "what is the capital of France", "hello again"]
+
+
+def gen_api_scenario(d, tier):
+    from ..gen import convo
+
+    if d.chance(0.3, "api-llm"):
+        n = d.randint(2, 5, "n")
+        texts = [d.choice(V2_LLM_TURNS, "t", i) for i in range(n)]
+        sc = {"colang": "2.x", "mode": "v2_llm", "in_rails": [], "out_rails": [], "exceptions": False, "verdicts": {}, "intents": {},
+              "convs": [{"turns": [{"tok": "#c0t%d#" % i, "text": t} for i, t in enumerate(texts)]}], "lat_seed": d.randint(0, 1 << 30, "lat_seed"), "lat_mode": d.weighted([("zero", 1), ("short", 2)], "lm")}
+    else:
+        sc = convo.gen_spec(d, colang="2.x", max_turns=5)
+        while len(sc["convs"][0]["turns"]) < 2:
+            t = len(sc["convs"][0]["turns"])
+            tk = convo.tok(0, t)
+            sc["convs"][0]["turns"].append({"tok": tk, "text": "topic %d more %s" % (t % 3, tk)})
+            sc["intents"][tk] = "free"
+        sc["tracker"] = True
+    sc["family"] = "api"
+    sc["cuts"] = "enumerate"
+    sc["cut_seed"] = d.randint(0, 1 << 30, "cutseed")
+    sc["age_every"] = 2 if tier == "quick" else 1
+    return sc
+
+
+def _api_turns(records):
+    """Observable behaviour of each turn: outcome, reply and the seam history (peers called, with what)."""
+    norm = UidNorm()
+    res = []
+    for r in records:
+        seam = [(e["kind"], e["name"], e.get("verdict"), e.get("text")) for e in r.events if e["kind"] in ("rail", "dialog", "llm", "shipped", "gen")]
+        res.append((r.status, r.reply_role, norm.norm(r.reply), type(r.exc).__name__ if r.exc else None, norm.norm(seam)))
+    return res
+
+
+def execute_api(sc):
+    from ..worlds import rails_run as RR
+
+    out = Outcome()
+    tr = Trace(sc.get("run_seed"))
+    wA, recsA = RR.run_conversations(sc, tr=tr, state_mode="live")
+    out.evaluations = 1
+    out.sim_seconds = getattr(wA, "sim_seconds", 0.0)
+    if any(r.status != "ok" for r in recsA):
+        out.inconclusive = "live twin raised (C03/C17's subject)"
+        out.digest = tr.digest()
+        return out
+    live = _api_turns(recsA)
+    n = len(live)
+    if sc["cuts"] == "enumerate":
+        from ..kernel.draws import Draws
+
+        d = Draws(sc["cut_seed"])
+        cuts = [[0, "restore"]]
+        for k in range(1, n):
+            if k % sc.get("age_every", 1) == d.index(sc.get("age_every", 1), "agephase"):
+                cuts.append([k, "age:%s+restore" % d.choice(AGES, "age", k)])
+    else:
+        cuts = [list(c) for c in sc["cuts"]]
+    for k, fault in cuts:
+        idle = None
+        if fault.startswith("age"):
+            delta = float(fault.split(":")[1].split("+")[0])
+            idle = (lambda kk, dd: (lambda c, t: dd if t == kk else 0.0))(k, delta)
+            out.fault("clock_jump")
+        out.fault("crash_restart", n - 1)
+        wB, recsB = RR.run_conversations(sc, state_mode="json", idle_fn=idle)
+        out.evaluations += 1
+        got = _api_turns(recsB)
+        tr.log("api-cut", k, fault, [g[0] for g in got])
+        kindsig = "restore" if fault == "restore" else "age+restore"
+        out.probe("api_turn_boundaries_restored", n - 1)
+        if fault.startswith("age"):
+            out.probe("api_aged_between_turns")
+        out.nontrivial_sigs.append(("api", sc["mode"], bool(sc.get("tracker")), n, kindsig))
+        for i in range(n):
+            a, b = live[i], got[i] if i < len(got) else None
+            if a == b:
+                continue
+            if b is not None and b[0] != "ok":
+                out.violate("continuation-raised", "%s:api:%s" % (kindsig, b[3]), "generate_async(state=<returned JSON state>)%s raised %s in turn %d (%r); with the live state object the turn was served: %r"
+                            % (" after resting %s" % fault if idle else "", b[3], i, recsB[i].exc, a[2]), pin={"cuts": [[k, fault]]})
+            else:
+                what = "reply" if b is None or a[2] != b[2] or a[1] != b[1] else "peer-calls"
+                out.violate("behaviour-differs", "%s:api-%s" % (kindsig, what), "turn %d through generate_async with the returned JSON state%s: %s\n   live state object: %s" % (i, " after resting %s" % fault if idle else "", _short_turn(b), _short_turn(a)),
+                            pin={"cuts": [[k, fault]]})
+            break
+    out.digest = tr.digest()
+    out.interleaving = ("api", sc["mode"], n)
+    out.sample = {"family": "api (LLMRails.generate_async with state)", "mode": sc["mode"], "tracker": bool(sc.get("tracker")), "turns": [t["text"] for t in sc["convs"][0]["turns"]], "cuts_executed": cuts, "live_replies": [x[2] for x in live]}
+    return out
+
+
+def _short_turn(t):
+    if t is None:
+        return "no such turn"
+    return "status=%s role=%s reply=%r peers=%s" % (t[0], t[1], t[2], [(x[0], x[1], x[2]) for x in t[4]])
 
 
 def _unhandled(msg):
